@@ -135,6 +135,9 @@ type RPCSpec struct {
 	Steps []Step `json:"steps"`
 	// DCs: extra reference servers (sharing the key store) registered in the client's data-centre list under these ids
 	DCs []int `json:"dcs,omitempty"`
+	// OtherClientDCs: a second client object in the same process (never connected) is configured with reference servers
+	// under these data-centre ids; the client under test is not
+	OtherClientDCs []int `json:"other_client_dcs,omitempty"`
 	// Decoy: the client is configured with the address of a second listener that must stay silent; the stored session
 	// names the real server (C12: a stored session decides where the client connects)
 	Decoy bool `json:"decoy,omitempty"`
